@@ -121,8 +121,10 @@ fn run_case(c: &Case, rng: &mut Rng, rep: &mut Report, replay: &dyn Fn() -> Stri
     }
     let gl = (u16::from_be_bytes([buf[0], buf[1]]) & 0x0FFF) as usize;
     let written_end = (0..c.buf_len).rev().find(|&i| buf[i] != sentinel_byte(i, 0x3C)).map(|i| i + 1).unwrap_or(0);
-    if gl + 2 != n || written_end > n {
-        rep.violation("C13", format!("reported-length:{}:{}", if ctx.is_some() { "first" } else { "complete" }, cls), || format!("{} = {:?}: reported {} bytes, GSE length field says {}, last byte written at offset {}", desc(), st, n, gl + 2, written_end), replay);
+    // "the reported length is the on-wire length" (bytes written behind the packet are C06's clause, not this one's)
+    let _ = written_end;
+    if gl + 2 != n {
+        rep.violation("C13", format!("reported-length:{}:{}", if ctx.is_some() { "first" } else { "complete" }, cls), || format!("{} = {:?}: reported {} bytes, GSE length field says {}", desc(), st, n, gl + 2), replay);
         return "bad-length";
     }
     // ---- the independent parser with full knowledge of the chain recovers what was passed
